@@ -45,6 +45,11 @@ pub fn parse_all(text: &str) -> Parsed {
 
 /// the same with an alias glossary
 pub fn parse_all_with(text: &str, aliases: &dyn yash_syntax::alias::Glossary, extra_lines: usize) -> Parsed {
+    parse_all_mode(text, aliases, extra_lines, false)
+}
+
+/// `portable`: the parser mode of `set -o portable` (non-portable constructs are syntax errors)
+pub fn parse_all_mode(text: &str, aliases: &dyn yash_syntax::alias::Glossary, extra_lines: usize, portable: bool) -> Parsed {
     let lines: Vec<String> = text.split_inclusive('\n').map(|s| s.to_string()).collect();
     let nlines = lines.len();
     let calls = Rc::new(Cell::new(0));
@@ -54,6 +59,11 @@ pub fn parse_all_with(text: &str, aliases: &dyn yash_syntax::alias::Glossary, ex
         calls: Rc::clone(&calls),
     };
     let mut lexer = Lexer::new(Box::new(input));
+    if portable {
+        let mut mode = lexer.mode();
+        mode.portable = true;
+        lexer.set_mode(mode);
+    }
     let mut lists = Vec::new();
     let mut error = None;
     let mut guard = 0;
@@ -201,7 +211,7 @@ impl G<'_> {
             11 | 12 => format!("$({})", self.clist(depth - 1, false)),
             13 => format!("`{}`", self.simple_plain()),
             14 | 15 => format!("$(({}))", self.arith()),
-            16 => format!("$'{}'", self.rng.pick(&["a", "\\n", "\\x41", "\\101", "\\'", "\\\\", "\\u00e9", "\\cA", "a\\tb", "\\e", "\\c\\\\", "\\c?", "\\c[", "\\c@", "\\cz", "\\\"", "\\x7", "\\0", "\\U0001F600", "a\\\\'b'"])),
+            16 => format!("$'{}'", self.rng.pick(&["a", "\\n", "\\x41", "\\101", "\\'", "\\\\", "\\u00e9", "\\cA", "a\\tb", "\\e", "\\c\\\\", "\\c?", "\\c[", "\\c@", "\\cz", "\\\"", "\\x7", "\\0", "\\U0001F600", "a\\\\'b'", "\\x41414141414", "\\xFFFFFFFFFFFFFFFFF", "\\u12345", "\\U123456789", "\\7777", "\\x", "\\u", "\\c"])),
             17 => "~".to_string(),
             18 => format!("{}*{}?", self.rng.pick(&LITS), self.rng.pick(&["[ab]", "[!a-c]", "[[:alpha:]]", ""])),
             _ => self.rng.pick(&LITS).to_string(),
@@ -533,6 +543,9 @@ fn deep_nesting() -> Vec<(String, String)> {
         v.push((format!("negations/pipes x{depth}"), format!("{}\n", vec!["a"; depth].join(" | "))));
         v.push((format!("and-or x{depth}"), format!("{}\n", vec!["a"; depth].join(" && "))));
         v.push((format!("backquotes in substitutions x{depth}"), mk("echo \"$(", ")\"", "echo `echo a`")));
+        v.push((format!("nested arithmetic expansions x{depth}"), mk("echo $((", "))", "1")));
+        v.push((format!("arithmetic expansions in parentheses x{depth}"), mk("echo $(( (", ") ))", "1")));
+        v.push((format!("substitution inside arithmetic x{depth}"), mk("echo $(( $(", ") ))", "echo 1")));
         v.push((format!("unclosed x{depth}"), "( ".repeat(depth)));
         v.push((format!("unclosed braces x{depth}"), "${a:-".repeat(depth)));
     }
@@ -562,6 +575,26 @@ fn check_text_inner(ctx: &Ctx, text: &str, origin: &str) {
             return;
         }
     };
+    // totality in the portable parser mode as well (the round trip is checked in the default mode)
+    {
+        let t = text.to_string();
+        let r = std::panic::catch_unwind(move || parse_all_mode(&t, &yash_syntax::alias::EmptyGlossary, 0, true));
+        match r {
+            Ok(p) => {
+                if p.next_line_calls > p.nlines + 2 {
+                    ctx.violation("read-ahead:portable-mode", format!("{origin}: portable mode: the parser asked for {} lines, the input has {}\ninput:\n{text:?}", p.next_line_calls, p.nlines));
+                }
+            }
+            Err(e) => {
+                let msg = crate::util::panic_msg(&e);
+                ctx.violation(
+                    format!("panic:portable-mode:{}", msg.split(": ").next().unwrap_or("")),
+                    format!("{origin}: the parser panicked in portable mode: {msg}\ninput ({} bytes):\n{text:?}", text.len()),
+                );
+                return;
+            }
+        }
+    }
     if let Some(e) = &parsed.error {
         if e.starts_with("harness:") {
             ctx.violation("runaway-command-lines", format!("{origin}: {e}\ninput:\n{text:?}"));
@@ -775,4 +808,4 @@ pub fn run(ctx: &Ctx) {
     ctx.assume("non-termination: the ./check wrapper runs the monitor under a CPU-time limit; exceeding it is reported as a violation with the input in flight");
 }
 
-pub const RULE: &str = "inputs: (1) 39 deep-nesting texts (13 constructs x depth 50/100/200, on an 8 MiB stack like the shell's main thread); (2) the 100 files of yash-cli/tests/scripted_test and every test script embedded in them as a here-document; (3) programs derived from a text-level grammar covering simple commands with assignments (incl. arrays) and redirections in every position, all compound commands, function definitions, every case terminator, all word units (escapes, quotes, parameters with every modifier, $(), backquotes, $(()), $'', ~, globs), here-documents (<<, <<-, quoted delimiters), comments, line continuations after operators; (4) single and double mutations (delete/swap/duplicate characters, insert metacharacters or keywords, drop words, truncate); (5) byte/Unicode soup. Each input is parsed by the real Lexer/Parser::command_line loop through a line-counting Input: panic, read-ahead beyond lines+2 and runaway are violations; every parsed command line T without here-documents is printed, re-parsed and compared (scrubbed Debug equality + textual idempotence). evaluations = input texts; distinct_nontrivial = distinct trees that completed the round trip";
+pub const RULE: &str = "inputs: (1) 48 deep-nesting texts (16 constructs x depth 50/100/200, on an 8 MiB stack like the shell's main thread); (2) the 100 files of yash-cli/tests/scripted_test and every test script embedded in them as a here-document; (3) programs derived from a text-level grammar covering simple commands with assignments (incl. arrays) and redirections in every position, all compound commands, function definitions, every case terminator, all word units (escapes, quotes, parameters with every modifier, $(), backquotes, $(()), $'', ~, globs), here-documents (<<, <<-, quoted delimiters), comments, line continuations after operators; (4) single and double mutations (delete/swap/duplicate characters, insert metacharacters or keywords, drop words, truncate); (5) byte/Unicode soup. Each input is parsed by the real Lexer/Parser::command_line loop through a line-counting Input: panic, read-ahead beyond lines+2 and runaway are violations; every parsed command line T without here-documents is printed, re-parsed and compared (scrubbed Debug equality + textual idempotence). evaluations = input texts; distinct_nontrivial = distinct trees that completed the round trip";
